@@ -579,3 +579,40 @@ _run_w01 = run
 def run(ctx, rep, tier):
     _run_w01(ctx, rep, tier)
     _containers_adopt_opening_actions(ctx, rep, tier)
+
+
+# ---------------------------------------------------------------------------------------------------------------- C01.z
+def _accepting_states_form_a_set(ctx, rep, tier):
+    """C01.z (F-122): `accepting_states` is a list used as a set. chain_actions_at_end attaches the trailing actions once per *entry*, and append_after takes a joined
+    state off the list with one `.remove`: an entry made twice (the shared body of a case clause with two labels is joined on once per label) runs what follows a block
+    twice and leaves the state accepting after the join. Every append to the list is therefore guarded by a membership test on that same list."""
+    model = ctx.model
+    rep.rule("C01.z", "the list of accepting states has set semantics: every `.accepting_states.append(x)` stands under `if x not in <that list>` - whatever is chained at the "
+                      "end of a machine is attached once per accepting state, not once per way the state became one")
+    n = 0
+    for q, f in model.functions.items():
+        for node in ast.walk(f):
+            if isinstance(node, ast.Call) and isinstance(node.func, ast.Attribute) and node.func.attr in ("append", "extend", "insert") and \
+                    isinstance(node.func.value, ast.Attribute) and node.func.value.attr == "accepting_states" and model.enclosing_function(node) == q:
+                n += 1
+                lst = ast.unparse(node.func.value)
+                arg = ast.unparse(node.args[-1]) if node.args else ""
+                guarded = False
+                p = model.parents.get(node)
+                while p is not None and p is not f:
+                    if isinstance(p, ast.If) and ast.unparse(p.test) == f"{arg} not in {lst}" and any(node is y for x in p.body for y in ast.walk(x)):
+                        guarded = True
+                    p = model.parents.get(p)
+                rep.check(guarded and node.func.attr == "append", "C01.z", q, f"{ast.unparse(node)}",
+                          f"`{ast.unparse(node)}` can list a state twice: `try {{ case {{ \"a\",\"b\" -> {{ \"c\"; }} }} }} catch {{ }} n = [n + 1]; hk();` performs the assignment and the hook "
+                          "twice on \"ac\" (the shared clause body is joined on once per label)", line=node.lineno)
+    if n < 1:
+        raise AnalysisError("C01.z: no append to an accepting_states list found (anchor lost: DFA.mark_accepting)")
+
+
+_run_z01 = run
+
+
+def run(ctx, rep, tier):
+    _run_z01(ctx, rep, tier)
+    _accepting_states_form_a_set(ctx, rep, tier)
